@@ -2,6 +2,8 @@
    usage: scen_gp PROG SCHED ; thread programs separated by '/':
      reader:  ( rcu_read_lock   ) rcu_read_unlock   r load post_g then pre_g for every g   q load pre_g then post_g
      updater: S  = pre_g := 1; synchronize_rcu(); post_g := 1   (g numbered per occurrence)
+     with -DDYNREG (C15): R = rcu_register_thread(), U = rcu_unregister_thread() as scheduled operations; a program starting with '-' starts
+     unregistered; threads leave as soon as their program ends (the registry changes while grace periods run)
    Litmus violations are printed as "LITMUS ..." lines; the timing oracle and the refinement check work on the trace. */
 #ifdef FLAVOR_MB
 #define RCU_MB
@@ -21,7 +23,11 @@ static void body(int t){
 	int reader = strchr(prog[t],'S') == 0; int g = gbase[t]; int depth = 0;
 	unsigned long vpost[NG], vpre[NG]; int have = 0;
 	sprintf(tlsname[t],"rd%d",t); vs_region(&URCU_TLS(rcu_reader).ctr,sizeof(unsigned long),tlsname[t]);
-	vs_quiet_begin(); rcu_register_thread(); vs_quiet_end();
+	int registered = 1;
+#ifdef DYNREG
+	if(prog[t][0]=='-') registered = 0; else
+#endif
+	{ vs_quiet_begin(); rcu_register_thread(); vs_quiet_end(); }
 	(void)reader;
 	for(char *p=prog[t]; *p; p++){
 		switch(*p){
@@ -33,15 +39,23 @@ static void body(int t){
 		case 'q': for(int i=0;i<ng_total;i++) vpre[i]=CMM_LOAD_SHARED(pre[i]); for(int i=0;i<ng_total;i++) vpost[i]=CMM_LOAD_SHARED(post[i]);
 			if(depth) for(int i=0;i<ng_total;i++) if(vpost[i]==1 && vpre[i]==0) printf("LITMUS reader %d saw pre_%d=0 then post_%d=1 inside one section\n",t,i,i);
 			break;
+#ifdef DYNREG
+		case 'R': if(!registered){ vs_call("register",0); rcu_register_thread(); vs_ret("register",0); registered=1; } break;
+		case 'U': if(registered && !depth){ vs_call("unregister",0); rcu_unregister_thread(); vs_ret("unregister",0); registered=0; } break;
+#endif
 		case 'S': CMM_STORE_SHARED(pre[g],1); vs_call("sync",g); synchronize_rcu(); vs_ret("sync",g); CMM_STORE_SHARED(post[g],1); g++; break;
 		}
 	}
 	(void)have;
 	/* keep the registry static while grace periods run (the Layer-A model has a fixed registry; C15 varies it): leave only
 	   after every updater has finished */
+#ifndef DYNREG
 	if(!reader) uatomic_dec(&updaters_left);
 	while(CMM_LOAD_SHARED(updaters_left)) caa_cpu_relax();
 	rcu_unregister_thread();
+#else
+	if(registered){ vs_call("unregister",0); rcu_unregister_thread(); vs_ret("unregister",0); }
+#endif
 }
 int main(int argc,char**argv){
 	static char obuf[1<<22]; setvbuf(stdout,obuf,_IOFBF,sizeof obuf);
